@@ -554,6 +554,14 @@ func runExact(c *hlib.Ctx, g gen, n int) {
 				if v > 0 {
 					in = "1"
 				}
+				// exactly on the edge: the sign of the (zero) distance is not determined
+				a, b2 := p[e], p[(e+1)%3]
+				cr := new(big.Rat).Sub(
+					new(big.Rat).Mul(new(big.Rat).Sub(ratOf(b2.X), ratOf(a.X)), new(big.Rat).Sub(ratOf(q.Y), ratOf(a.Y))),
+					new(big.Rat).Mul(new(big.Rat).Sub(ratOf(b2.Y), ratOf(a.Y)), new(big.Rat).Sub(ratOf(q.X), ratOf(a.X))))
+				if cr.Sign() == 0 {
+					in = "on"
+				}
 				return fmt.Sprintf("e%d %s", e, in)
 			})
 			c.Emit("c06 x.tri2 "+r2(p[0])+" "+r2(p[1])+" "+r2(p[2])+" "+r2(q), impl)
